@@ -113,6 +113,7 @@ type Frame struct {
 	mon      *MonitorCtx
 	iterOf   map[*ssa.BasicBlock]Term // rangeindex loops: iterations completed at header
 	mapRange map[ssa.Value]*mapRangeInfo
+	curSt    *State
 }
 
 type retInfo struct {
@@ -206,6 +207,10 @@ func (fe *FuncEnc) comp(st *State, name string, s Sort) Term {
 		if strings.HasPrefix(name, "A_") {
 			fe.addItem(fmt.Sprintf("(assert (not (select %s 0)))", init), "")
 		}
+		if name == "G_io_Exited" {
+			// no code runs after the process has exited
+			fe.addItem(fmt.Sprintf("(assert (not %s))", init), "")
+		}
 	}
 	t := Term{init, s}
 	return t
@@ -232,6 +237,11 @@ func (fe *FuncEnc) emit(kind, label string, path, goal Term, clause string, pos 
 	fe.cur.labelCnt[key]++
 	if n := fe.cur.labelCnt[key]; n > 1 {
 		full = fmt.Sprintf("%s#%d", full, n)
+	}
+	if fe.cur != nil && fe.cur.curSt != nil {
+		if ex, ok := fe.cur.curSt.heap["G_io_Exited"]; ok && ex.S != "false" {
+			path = tAnd(path, tNot(ex))
+		}
 	}
 	g := tImp(path, goal)
 	if g.S == "true" {
@@ -841,4 +851,11 @@ func sortStrings(m map[string]bool) []string {
 	}
 	sort.Strings(out)
 	return out
+}
+
+func (fe *FuncEnc) conReveal() []string {
+	if fe.con == nil {
+		return nil
+	}
+	return fe.con.Reveal
 }
